@@ -712,8 +712,8 @@ func (r *result) adjustResources(resources *LinuxResources, plugin string) error
 		if err := r.owners.claimHugepageLimit(id, l.PageSize, plugin); err != nil {
 			return err
 		}
-		container.HugepageLimits = append(container.HugepageLimits, l)
-		reply.HugepageLimits = append(reply.HugepageLimits, l)
+		container.HugepageLimits = setHugepageLimit(container.HugepageLimits, l)
+		reply.HugepageLimits = setHugepageLimit(reply.HugepageLimits, l)
 	}
 
 	if len(resources.Unified) != 0 {
@@ -751,6 +751,17 @@ func (r *result) adjustResources(resources *LinuxResources, plugin string) error
 		reply.Pids = pidv
 	}
 	return nil
+}
+
+// setHugepageLimit sets the limit for a page size, replacing any existing limit for it.
+func setHugepageLimit(limits []*HugepageLimit, l *HugepageLimit) []*HugepageLimit {
+	for i, o := range limits {
+		if o.PageSize == l.PageSize {
+			limits[i] = l
+			return limits
+		}
+	}
+	return append(limits, l)
 }
 
 func (r *result) adjustCgroupsPath(path, plugin string) error {
@@ -914,7 +925,7 @@ func (r *result) updateResources(reply, u *ContainerUpdate, plugin string) error
 		if err := r.owners.claimHugepageLimit(id, l.PageSize, plugin); err != nil {
 			return err
 		}
-		resources.HugepageLimits = append(resources.HugepageLimits, l)
+		resources.HugepageLimits = setHugepageLimit(resources.HugepageLimits, l)
 	}
 
 	if len(u.Linux.Resources.Unified) != 0 {
